@@ -4589,7 +4589,8 @@ class DecAffine(Affine):
 
                 values.append(output)
 
-            if ns > 1 and len(self.event_adapt) > 1:
+            scen_wise = any(isinstance(arg, RandVal) and arg.sw for arg in args)
+            if ns > 1 and (len(self.event_adapt) > 1 or scen_wise):
                 return pd.Series(values, index=self.dro_model.series_scen.index)
             else:
                 return values[0]
